@@ -176,6 +176,11 @@ def run(case):
                                "msg": f"the real ThreadPoolExecutor gives a result different from the canonical simulated execution: {d}",
                                "sig": {"what": d.split(":")[0]}, "canonical": ref, "got": real})
     canon_d = digest(ref)
+    if case.get("expect_canonical_digest") is not None and canon_d != case["expect_canonical_digest"]:
+        violations.append({"kind": "hash_seed_dependent_result",
+                           "msg": f"canonical digest under PYTHONHASHSEED={os.environ.get('PYTHONHASHSEED')} is {canon_d}, "
+                                  f"expected {case['expect_canonical_digest']} (obtained under the batch's hash seed)",
+                           "sig": {"what": "hash seed"}})
     return {"violations": violations, "stats": stats, "keys": keys, "digest": canon_d,
             "record": canon_d, "event_digest": digest([ref, events, [v["kind"] for v in violations]]),
             "sample": {"scenario": scn, "schedules": case["schedules"][:2], "canonical_result": ref}}
@@ -248,6 +253,13 @@ def finalize(agg, tier, verif_seed):
             if mine != dg:
                 seed = mix(verif_seed, f"{ID}:{idx}")
                 case = gen(Choices(seed), tier)
+                # replay: same case in an interpreter started with that hash seed; its canonical digest must
+                # equal the one obtained under the batch's hash seed
+                case["expect_canonical_digest"] = mine
+                case["schedules"] = []
+                case["real_pool_probe"] = False
+                if str(data["hashseed"]).isdigit():
+                    case["replay_env"] = {"PYTHONHASHSEED": str(data["hashseed"]), "VERIF_NO_REEXEC": "1"}
                 res["violations"].append(({"kind": "hash_seed_dependent_result",
                                            "msg": f"canonical digest of run {idx} under PYTHONHASHSEED={data['hashseed']} "
                                                   f"differs from the one under PYTHONHASHSEED={os.environ.get('PYTHONHASHSEED')}",
